@@ -8,6 +8,7 @@ import Mathlib.Algebra.BigOperators.Group.List.Basic
 import Mathlib.Data.List.Perm.Basic
 import Mathlib.Tactic.Ring
 import Mathlib.Tactic.Linarith
+import PhotVerif.Gen.ForwardTable
 
 namespace PhotVerif.C18
 open PhotVerif.Model.Render PhotVerif.Gen.RenderTable
@@ -124,5 +125,13 @@ theorem loop_skeleton : accumulatesStampPlusBkg = true ∧ skipsNoOverlap = true
 -- non-vacuity: a 5-wide stamp centred at x = 1 on a 4-pixel axis covers pixels 0..3 (window [0,4))
 example : window1 4 5 1 = some (0, 4) := by decide +kernel
 example : window1 4 3 (-5/2) = none := by decide +kernel
+
+/-! ### no delegating call in this property's modules drops an argument it holds (table regenerated from the source) -/
+
+/-- TABLE OBLIGATION: in the modules of this property, every call that delegates to another photutils function, method or
+    constructor passes on each value the caller holds under the callee's own parameter name (its own parameters, `self.<name>`
+    attributes set in `__init__`) - dropped `subpixels`, `mask`, `connectivity`, `include_localbkg` ... keywords were a recurring
+    kind of seeded change -/
+theorem no_dropped_arguments : Gen.ForwardTable.droppedIn Gen.ForwardTable.scopeC18 = [] := by decide
 
 end PhotVerif.C18
